@@ -111,4 +111,19 @@ PROPS = {
              "encoder written from the Apache specifications; compact long-form re-encodings (field headers, list headers) must "
              "decode to the same value; message headers for every type/name/seqid class",
     ),
+    "C05": dict(
+        lean_modules=["Enc.Props.C05"],
+        variants=V_DEFAULT, areas=["json.parse", "json.skipSpaces", "json.Valid", "json.internalParseFlags", "json.decoder_parse",
+                                   "json.encoder_encodeRawMessage", "json.encoder_encodeJSONMarshaler", "json.decoder_decodeArray",
+                                   "json.decoder_decodeRawMessage", "json.hasNullPrefix", "json.hasTruePrefix", "json.hasFalsePrefix"],
+        allowed_native=["Enc.Lemmas.Json"],
+        main_theorem="Enc.Props.C05 (Valid = RFC 8259 recogniser)",
+        rule="EXHAUSTIVE over a 26-symbol alphabet of JSON-significant byte classes: all strings of length <= 3 (quick) / 4 (thorough) "
+             "plus random longer ones, each pushed through Valid and every syntax-only consumer (RawMessage encode, MarshalJSON "
+             "output, RawMessage decode, skipped struct field, surplus array slot, nested skip, Decoder framing) and compared with "
+             "encoding/json; generated documents with one-edit mutations; strings with a special byte at every offset 0..20 "
+             "(8/16-byte quote windows); nesting 9999/10000/10001; a sample through the Lean driver (impl = model = RFC grammar)",
+        trusted_base=["encoding/json of the installed toolchain is the oracle for the composite consumers (called in-process)"],
+        assumptions=[],
+    ),
 }
